@@ -31,6 +31,11 @@ pub fn expr_json(e: &Expression<F>) -> Value {
     }
 }
 
+/// Canonical integer value of a field element (endianness-independent).
+fn cf_hex<K: CircuitField>(k: &K) -> String {
+    format!("0x{}", k.to_biguint().to_str_radix(16))
+}
+
 fn advice_cols(e: &Expression<F>, out: &mut BTreeSet<usize>) {
     match e {
         Expression::Advice(q) => {
@@ -94,10 +99,10 @@ where
         "curve": name,
         "base_modulus": format!("0x{}", <C::Base as CircuitField>::modulus().to_str_radix(16)),
         "scalar_modulus": format!("0x{}", <C::ScalarField as CircuitField>::modulus().to_str_radix(16)),
-        "a": fe_hex(&C::A),
-        "b": fe_hex(&C::B),
-        "base_zeta": fe_hex(&C::base_zeta()),
-        "scalar_zeta": fe_hex(&C::scalar_zeta()),
+        "a": cf_hex(&C::A),
+        "b": cf_hex(&C::B),
+        "base_zeta": cf_hex(&C::base_zeta()),
+        "scalar_zeta": cf_hex(&C::scalar_zeta()),
         "log2_base": <P as FieldEmulationParams<F, C::Base>>::LOG2_BASE,
         "nb_limbs": <P as FieldEmulationParams<F, C::Base>>::NB_LIMBS,
         "moduli": <P as FieldEmulationParams<F, C::Base>>::moduli().iter().map(|m| format!("0x{}", m.to_str_radix(16))).collect::<Vec<_>>(),
